@@ -110,7 +110,13 @@ package wallet
 //@   ensures @nogap [C19] err == nil ==> (forall id Str :: wdb.counter[id] == old(wdb.counter)[id] || wdb.counter[id] == wal.derivedupto[id])
 
 //@ func (*Wallet).MintTokens
-//@   tags C19
+//@   tags C19 C03
+// NUT-20 (C03), wallet side: a quote with a private key is redeemed with that key's signature over this quote id
+// and exactly the outputs that are sent, in the order they are sent, hex encoded as the mint parses it
+//@   calls nut20.SignMintQuote asserts @signskey [C03] privateKey == quote.PrivateKey
+//@   calls client.PostMintBolt11 asserts @sendsoutputs [C03] mintRequest.Quote == quoteId && mintRequest.Outputs == blindedMessages
+//@   calls client.PostMintBolt11 asserts @sighex [C03] quote.PrivateKey != nil ==> hexok(mintRequest.Signature) && sig.parseok(hexdec(mintRequest.Signature))
+//@   calls client.PostMintBolt11 asserts @sendssigned [C03] quote.PrivateKey != nil ==> sig.ok(sig.parse(hexdec(mintRequest.Signature)), sha256(bytesOf(cat.bm.B_(quoteId, seq(blindedMessages), len(blindedMessages)))), smul(sc.of(quote.PrivateKey.Key), pt.G))
 //@   requires w != nil && w.db != nil && w.mints != nil && winv()
 //@   calls (*Wallet).createBlindedMessages asserts @fresh [C19] counter == nil || *counter >= wal.signedupto[keysetId]
 //@   ensures @past [C19] r1 == nil ==> winv()
